@@ -29,6 +29,9 @@ void vf::c14_case(Ctx &c) {
   memset(st, 0, sizeof st); memset(ac, 0, sizeof ac);
   st[0].id = 0xC0000000u | tbase; st[0].type = 254; st[1].id = 0x80000000u | rbase; st[1].type = 254;
   int mode = 2; int accepted = 0, refused = 0; bool activated_after = false;
+  // mode with-inhibit (param 1): the inhibit time is written with non-zero values too, for any transmission type, and a few ticks may pass; a transmission the
+  // inhibit time may be holding back is not constrained (the statement does not say how an inhibit time applies), everything else is
+  const bool winh = c.param == 1; bool sent_recently = false, inh_seen = false; int tickops = 0, inh_holds = 0;
   int synccnt = 0; bool rpend = false, sync_probed = false, timing_written = false;   // SYNCs counted since the TPDO's activation; a synchronous RPDO frame may be buffered
   auto findobj = [&](uint32_t m) -> int { for (int i = 0; i < 6; i++) if ((m >> 8) == ((0x2100u << 8) | OB[i].sub)) return i; return -1; };
   auto verdict = [&](uint32_t code, bool refuse, uint32_t want, const char *what, uint32_t val) {
@@ -51,8 +54,9 @@ void vf::c14_case(Ctx &c) {
   while (!c.t.exhausted() && steps < (c.thorough ? 140 : 70)) {
     steps++; c.ops++;
     int k = (int)c.t.below(2); uint16_t com = (uint16_t)(k ? 0x1400 + rp : 0x1800 + tp), mp = (uint16_t)(k ? 0x1600 + rp : 0x1A00 + tp);
-    static const uint16_t W[9] = {22, 8, 22, 30, 8, 6, 6, 8, 6};
-    uint32_t op = c.t.weighted(W);
+    static const uint16_t W[9] = {22, 8, 22, 30, 8, 6, 6, 8, 6}, WI[10] = {22, 10, 16, 22, 8, 10, 4, 14, 8, 6};
+    uint32_t op = winh ? c.t.weighted(WI) : c.t.weighted(W);
+    if (winh && k == 1 && op <= 3 && c.t.chance(150)) k = 0, com = (uint16_t)(0x1800 + tp), mp = (uint16_t)(0x1A00 + tp);   // this mode is about the TPDO
     s.clear_tx();
     if (op == 0) {        // COB-ID
       uint32_t base = k ? rbase : tbase;
@@ -100,17 +104,26 @@ void vf::c14_case(Ctx &c) {
       bool consistent = true; int tot = 0; for (int i = 0; i < ac[0].num; i++) { int o = findobj(ac[0].map[i]); int by = (ac[0].map[i] & 0xFF) >> 3; if (o < 0 || by != OB[o].bytes) consistent = false; tot += by; }
       int e = act[0] && !(ac[0].id & 0x80000000u) ? 1 : 0;
       VLOG(c, "probe: trigger TPDO -> %zu frame(s)", s.tx.size());
+      if (winh && e == 1) { if (*tc.inhibit != 0) inh_seen = true; if (inh_seen && sent_recently) { e = (int)s.tx.size() <= 1 ? (int)s.tx.size() : 1; inh_holds++; } sent_recently = true; }
       CHECK(c, (int)s.tx.size() == e, "takes-effect-as-stored", "triggering the TPDO (activated COB-ID %08X): %zu frame(s), expected %d", ac[0].id, s.tx.size(), e);
-      if (e && consistent) {
+      if (e && consistent && s.tx.size() == 1) {
         uint8_t ex[8]; int p = 0; for (int i = 0; i < ac[0].num; i++) { int o = findobj(ac[0].map[i]); memcpy(ex + p, ob[o]->store, OB[o].bytes); p += OB[o].bytes; }
         CHECK(c, s.tx[0].id == (ac[0].id & 0x7FFu) && s.tx[0].dlc == p && !memcmp(s.tx[0].d, ex, p), "takes-effect-as-stored", "TPDO frame %s does not match the activated configuration (id %03X, %d mapped bytes)", s.tx[0].str().c_str(), ac[0].id & 0x7FF, p);
       }
     } else if (op == 8) { // event time (any value; no time passes in these histories) and inhibit time := 0 of the TPDO: the statement names no precondition for them,
       // so either verdict is admitted - but they must not disturb what the following probes observe
       bool ev = c.t.coin(); uint16_t v = ev ? (uint16_t[]){0, 10, 100, 1000}[c.t.below(4)] : 0;
+      if (winh) { if (ev) { if (v == 10) v = 100; } else v = (uint16_t)(10 * c.t.below(6)); }   // inhibit time 0..5 ms; event times stay beyond the ticks a case lets pass
       uint32_t code = cl.write((uint16_t)(0x1800 + tp), ev ? 5 : 3, v, 2);
       VLOG(c, "TPDO %s time := %u -> %08X", ev ? "event" : "inhibit", v, code);
       if (code == 0) timing_written = true;
+      if (*tc.inhibit != 0) inh_seen = true;
+    } else if (op == 9) { // mode with-inhibit: 6 ticks pass (every inhibit time of this mode ends, no event time is reached): a transmission that was held back may go out
+      if (tickops >= 12) continue; tickops++;
+      for (int i = 0; i < 6; i++) s.step_tick();
+      VLOG(c, "6 ticks -> %zu frame(s)", s.tx.size());
+      CHECK(c, s.tx.size() <= (sent_recently && inh_seen ? 1u : 0u), "takes-effect-as-stored", "%zu frame(s) while 6 ticks passed (%s)", s.tx.size(), sent_recently && inh_seen ? "at most the one transmission the inhibit time held back is expected" : "nothing was held back, no event time is that short");
+      sent_recently = !s.tx.empty(); s.clear_tx();   // a transmission released inside these ticks starts its own inhibit time
     } else if (op == 7) { // SYNC activation probe: a synchronous TPDO of type n answers every n-th SYNC since its activation, any other TPDO no SYNC
       if (mode != 3) continue;
       SplitMix r(c.t.u16()); for (int i = 0; i < 4; i++) { uint8_t b[4]; uint32_t v = (uint32_t)r.next(); memcpy(b, &v, 4); memcpy(ob[i]->store, b, ob[i]->width); }
@@ -120,6 +133,7 @@ void vf::c14_case(Ctx &c) {
       int e = 0;
       if (act[0] && !(ac[0].id & 0x80000000u)) { if (ac[0].type >= 1 && ac[0].type <= 240) { synccnt++; e = synccnt == ac[0].type; if (e) synccnt = 0; } else if (ac[0].type < 254) e = -1; }   // type 0 and reserved types: not constrained
       VLOG(c, "probe: SYNC -> %zu frame(s) (activated TPDO type %u, SYNC count %d)", s.tx.size(), ac[0].type, synccnt);
+      if (winh && e == 1) { if (*tc.inhibit != 0) inh_seen = true; if (inh_seen && sent_recently) { e = -1; inh_holds++; CHECK(c, s.tx.size() <= 1, "takes-effect-as-stored", "%zu frames on one SYNC", s.tx.size()); } sent_recently = true; }
       for (int i = 0; i < ac[0].num; i++) if (findobj(ac[0].map[i]) < 0) e = -1;   // a count that covers never-configured (0) entries: the activation fails half-way, not constrained
       if (e >= 0) CHECK(c, (int)s.tx.size() == e, "takes-effect-as-stored", "SYNC with the activated TPDO configuration (COB-ID %08X, type %u, %d SYNC(s) since the last transmission or activation): %zu frame(s), expected %d", ac[0].id, ac[0].type, synccnt, s.tx.size(), e);
       if (e == 1 && s.tx.size() == 1) {
@@ -143,10 +157,11 @@ void vf::c14_case(Ctx &c) {
       std::string d = s.diff_snapshot(model, s.snapshot());
       CHECK(c, d.empty(), "takes-effect-as-stored", "RPDO frame %s with the activated configuration (id %08X, count %u): %s", f.str().c_str(), ac[1].id, ac[1].num, d.c_str());
     }
+    if (winh && (op == 5 || op == 7) && !s.tx.empty()) sent_recently = true;   // whatever made the TPDO transmit (also the unconstrained types) starts its inhibit time
     stored_equal();
   }
   if (accepted && refused && activated_after) c.nontrivial = true;
-  if (accepted && refused) c.cls("accepted-and-refused-writes"); if (activated_after) c.cls("activation-after-reconfiguration"); if (sync_probed) c.cls("sync-probe"); if (timing_written) c.cls("event-or-inhibit-time-written");
+  if (accepted && refused) c.cls("accepted-and-refused-writes"); if (activated_after) c.cls("activation-after-reconfiguration"); if (sync_probed) c.cls("sync-probe"); if (timing_written) c.cls("event-or-inhibit-time-written"); if (inh_holds) c.cls("transmission-requested-while-an-inhibit-time-may-be-running");
 }
 
 namespace {
@@ -156,9 +171,10 @@ Registrar reg(Prop{
     "Cases: node id 1..127, one TPDO and one RPDO on a generated channel number 0..3 (initially invalid, empty mapping, 4..8 mapping sub-indices present) and candidate objects {mappable RW 8/16/32 bit, mappable read-only, mappable write-only, not mappable}; histories of up to 70 (140) expedited SDO writes to 14xx/16xx/18xx/1Axx sub-indices with values from a covering domain "
     "(valid/invalid bit, id change, EXT and RTR bits, types, counts 0..9, entries naming existing / absent index / absent sub-index / non-mappable / wrong-access objects with lengths 8..64 bit), interleaved with writes of the TPDO's event time and inhibit time (:= 0), NMT start / pre-operational and activation probes (trigger the TPDO, send the RPDO frame, send a SYNC). "
     "Oracle: rule model: accepted only under the CiA 301 preconditions of the statement, abort code 0604 0041h / 0604 0042h where the reason is named (otherwise any abort), every refused write leaves all stored values unchanged, clearly allowed writes are accepted, "
-    "invariant at each activation (<= 8 mapped bytes, all targets exist), and the activated PDO behaves exactly as the stored configuration (frame identifier/DLC/content, RPDO effect via full snapshot, a synchronous TPDO of type n answers every n-th SYNC since its activation and an event-driven or invalid one none). "
+    "invariant at each activation (<= 8 mapped bytes, all targets exist), and the activated PDO behaves exactly as the stored configuration (frame identifier/DLC/content, RPDO effect via full snapshot, a synchronous TPDO of type n answers every n-th SYNC since its activation and an event-driven or invalid one none). Mode with-inhibit: the inhibit time is written with 0..5 ms for any transmission type and groups of 6 ticks may pass; a transmission requested while an inhibit time may be running may be sent or held back (at most one frame then goes out when time passes), every other expectation stands - in particular a TPDO that is event-driven or invalid as stored answers no SYNC. "
     "Non-trivial: >= 1 accepted and >= 1 refused write and an activation after them. Distinct = distinct decoded choice sequence.",
-    {Mode{"random", vf::c14_case, false, 1000000, 20000000, 0, 0, 300, 600}},
+    {Mode{"random", vf::c14_case, false, 1000000, 20000000, 0, 0, 300, 600},
+     Mode{"with-inhibit", vf::c14_case, false, 400000, 8000000, 1, 1, 300, 600}},
     {"a valid->valid COB-ID write with the identical value may be refused or accepted", "the length field of a mapping entry is not checked against the object width by the statement; activation probes are evaluated for width-consistent mappings only",
      "a refusal whose reason the statement does not name may carry any abort code"}});
 
